@@ -19,6 +19,7 @@ package stream
 import (
 	"encoding/json"
 	"fmt"
+	"github.com/rulego/streamsql/utils/verifhook"
 	"strings"
 	"time"
 
@@ -71,6 +72,7 @@ func (dp *DataProcessor) Process() {
 			dp.stream.consumeMux.Unlock()
 			return
 		}
+		verifhook.Yield("processor.before-receive")
 
 		select {
 		case data, ok := <-currentDataChan:
